@@ -54,6 +54,7 @@ type FuncSpec struct {
 	Replay    ast.Expr          // call to a replay builder (verif-tagged Go function) with entry-state arguments
 	ReplayText string
 	ReplayPost ast.Expr // like Replay, arguments evaluated in the post state (for post obligations)
+	Extern    bool     // contract of a dependency (file under contracts/extern)
 	Captures  []Clause // closures: facts about the captured variables, checked where the closure is created and assumed in its body (captured variables must be assigned once)
 	Implementers []string // iface blocks: runtime types whose method is verified against this contract
 	ImplOf    *FuncSpec   // synthesized spec of an implementer check: the interface contract it is checked against
@@ -322,6 +323,7 @@ func (sp *Specs) parseFile(path string, extern bool) error {
 			if word == "extern" || extern {
 				curF.Trusted = true
 				curF.Verify = false
+				curF.Extern = true
 			}
 			if word == "iface" {
 				curF.Iface = true
